@@ -231,6 +231,9 @@ struct OnlineConsole {
     /// every check so far held
     ok: bool,
     fatal: Option<ErrorKind>,
+    /// concrete per-call outcomes (0 all, 1 one byte, 2 Interrupted, 3 Other, 4 nothing) when `scripted`
+    scripted: bool,
+    script: [u8; 5],
 }
 
 impl anstyle_wincon::WinconStream for OnlineConsole {
@@ -261,6 +264,23 @@ impl anstyle_wincon::WinconStream for OnlineConsole {
         if fg != cap(style.get_fg_color()) || bg != cap(style.get_bg_color()) {
             self.ok = false;
         }
+        if self.scripted {
+            let code = if self.calls <= 5 { self.script[self.calls - 1] } else { 0 };
+            if code == 2 {
+                return Err(ErrorKind::Interrupted.into());
+            } else if code == 3 {
+                self.fatal = Some(ErrorKind::Other);
+                return Err(ErrorKind::Other.into());
+            } else if code == 4 {
+                self.fatal = Some(ErrorKind::WriteZero);
+                return Ok(0);
+            } else if code == 1 && data.len() > 1 {
+                self.off += 1;
+                return Ok(1);
+            }
+            self.off += data.len();
+            return Ok(data.len());
+        }
         if self.faults_left > 0 && vk::any_bool() {
             self.faults_left -= 1;
             let what = vk::any_u8_in(0, 2);
@@ -283,8 +303,15 @@ impl anstyle_wincon::WinconStream for OnlineConsole {
 }
 
 fn write_all_online(faults: u8) {
+    let (ok, nruns, calls) = write_all_online_with(faults, None);
+    vk::vk_cover!(ok && nruns == 2 && calls >= 3, "two runs with a retry or a short write");
+    vk::vk_cover!(!ok, "error path");
+}
+
+/// returns (write_all succeeded, runs yielded, console calls)
+fn write_all_online_with(faults: u8, script: Option<[u8; 5]>) -> (bool, usize, usize) {
     let buf = [b'x'; 3];
-    let mut console = OnlineConsole { calls: 0, faults_left: faults, seen_runs: 0, off: 0, ok: true, fatal: None };
+    let mut console = OnlineConsole { calls: 0, faults_left: faults, seen_runs: 0, off: 0, ok: true, fatal: None, scripted: script.is_some(), script: script.unwrap_or([0; 5]) };
     let mut state = WinconBytes::new();
     let r = write_all(&mut console, &mut state, &buf);
     let (nruns, total) = unsafe { (RUN_N, RUN_TOTAL) };
@@ -303,8 +330,7 @@ fn write_all_online(faults: u8) {
     if console.fatal.is_some() {
         assert!(r.is_err(), "a fatal console outcome is never turned into success");
     }
-    vk::vk_cover!(r.is_ok() && nruns == 2 && console.calls >= 3, "two runs with a retry or a short write");
-    vk::vk_cover!(r.is_err(), "error path");
+    (r.is_ok(), nruns, console.calls)
 }
 
 /// every extractor answer (0-2 runs, arbitrary colours, 1-2 byte texts) x every console script
@@ -314,3 +340,46 @@ fn write_all_online(faults: u8) {
 fn wincon_write_all_online() {
     write_all_online(1);
 }
+
+// ---- write_all with CONCRETE extractor answers and console scripts (bounded sample): the number
+// of runs, the text lengths and every console outcome are constants, only the colours are symbolic,
+// so CBMC decides each case by propagation.  This is the bounded stand-in for the symbolic
+// harnesses above, which do not finish.
+
+fn write_all_scripted(runs: usize, two_bytes: bool, script: [u8; 5], want_ok: bool, want_calls: usize) {
+    unsafe {
+        crate::adapter::verif_kani_wincon_sgr::RUN_FORCE_TOTAL = Some(runs);
+        crate::adapter::verif_kani_wincon_sgr::RUN_FORCE_TWO = Some(two_bytes);
+    }
+    let (ok, nruns, calls) = write_all_online_with(0, Some(script));
+    assert!(ok == want_ok && calls == want_calls, "scripted console: write_all makes exactly the calls the script needs and succeeds exactly when no fatal outcome was scripted");
+    vk::vk_cover!(nruns <= runs, "scripted case runs to the end");
+}
+
+macro_rules! scripted {
+    ($name:ident, $runs:expr, $two:expr, $script:expr, $ok:expr, $calls:expr) => {
+        #[cfg_attr(kani, kani::proof, kani::unwind(8),
+            kani::stub(crate::adapter::wincon::next_bytes, crate::adapter::verif_kani_wincon_sgr::wincon_next_recorder))]
+        fn $name() {
+            write_all_scripted($runs, $two, $script, $ok, $calls);
+        }
+    };
+}
+
+// no run; one run accepted at once; two runs accepted at once
+scripted!(wincon_write_all_s_none, 0, true, [0, 0, 0, 0, 0], true, 0);
+scripted!(wincon_write_all_s_two_plain, 2, true, [0, 0, 0, 0, 0], true, 2);
+// short write on the first run, then the rest; second run after an Interrupted
+scripted!(wincon_write_all_s_short_then_rest, 2, true, [1, 0, 2, 0, 0], true, 4);
+// short writes on both runs
+scripted!(wincon_write_all_s_short_both, 2, true, [1, 0, 1, 0, 0], true, 4);
+// Interrupted twice before anything is accepted, then a short write
+scripted!(wincon_write_all_s_interrupted_twice, 1, true, [2, 2, 1, 0, 0], true, 4);
+// a fatal error on the second run
+scripted!(wincon_write_all_s_error_second, 2, true, [0, 3, 0, 0, 0], false, 2);
+// a fatal error after a short write
+scripted!(wincon_write_all_s_error_after_short, 1, true, [1, 3, 0, 0, 0], false, 2);
+// zero-length write after a short write
+scripted!(wincon_write_all_s_zero_after_short, 1, true, [1, 4, 0, 0, 0], false, 2);
+// zero-length write at once
+scripted!(wincon_write_all_s_zero_first, 2, false, [4, 0, 0, 0, 0], false, 1);
